@@ -33,7 +33,7 @@ use hcore::out::{Report, cases_from_arg};
 use rand::{RngExt, SeedableRng, rngs::StdRng};
 use serde_json::{Value, json};
 
-use crate::util::{self, WATCHDOG};
+use crate::util;
 
 thread_local! {
     static ROLE: Cell<Option<usize>> = const { Cell::new(None) };
@@ -156,6 +156,9 @@ enum Parked {
     Timeout,
 }
 
+/// Controller-side patience (thread start-up and scheduling on a heavily loaded machine).
+const CTL_WAIT: Duration = Duration::from_secs(30);
+
 fn wait_parked(role: usize) -> Parked {
     let t0 = Instant::now();
     let mut st = lock();
@@ -168,7 +171,7 @@ fn wait_parked(role: usize) -> Parked {
                 return Parked::Finished;
             }
         }
-        if t0.elapsed() > WATCHDOG {
+        if t0.elapsed() > CTL_WAIT {
             return Parked::Timeout;
         }
         st = ctl().cv.wait_timeout(st, Duration::from_millis(100)).unwrap_or_else(|e| e.into_inner()).0;
@@ -231,6 +234,8 @@ enum CloserEnd {
     Some,
     None,
     Stopped,
+    /// free running: neither woken nor all holders finished within the controller's patience
+    TimedOut,
 }
 
 struct Threads {
@@ -242,7 +247,7 @@ impl Threads {
     fn join_all(self) -> Result<(), String> {
         let mut bad = vec![];
         for (name, rx, j) in self.joins {
-            match rx.recv_timeout(WATCHDOG) {
+            match rx.recv_timeout(CTL_WAIT) {
                 Ok(()) | Err(mpsc::RecvTimeoutError::Disconnected) => {
                     let _ = j.join();
                 }
@@ -378,6 +383,7 @@ fn spawn_all(names: &[String], scripts: &[&str], is_op: &[bool], steer: bool, de
                             // free running: wait for the wake-up; when every holder has finished
                             // and no wake-up has arrived none can ever arrive
                             let t0 = Instant::now();
+                            let mut timed_out = false;
                             let stranded = loop {
                                 if wf.woken.load(Ordering::SeqCst) {
                                     break false;
@@ -388,13 +394,14 @@ fn spawn_all(names: &[String], scripts: &[&str], is_op: &[bool], steer: bool, de
                                 if fin.load(Ordering::SeqCst) == nh {
                                     break !wf.woken.load(Ordering::SeqCst);
                                 }
-                                if t0.elapsed() > WATCHDOG {
+                                if t0.elapsed() > CTL_WAIT {
+                                    timed_out = true;
                                     break true;
                                 }
                                 std::thread::park_timeout(Duration::from_millis(2));
                             };
                             if stranded {
-                                break CloserEnd::Stopped;
+                                break if timed_out { CloserEnd::TimedOut } else { CloserEnd::Stopped };
                             }
                         }
                     }
@@ -480,7 +487,7 @@ fn run_schedule(case: &Value) -> (Problems, u64, u64) {
     for role in 0..names.len() {
         if let Parked::Timeout = wait_parked(role) {
             p.0.push(("hang", sig("role-never-arrives", json!({"role": if role == 0 { "closer" } else { "holder" }, "expected": "first hook"})),
-                format!("role {} did not reach its first hook within {WATCHDOG:?}", names[role]), 0));
+                format!("role {} did not reach its first hook within {CTL_WAIT:?}", names[role]), 0));
             diverged = Some("timeout".into());
         }
     }
@@ -516,7 +523,7 @@ fn run_schedule(case: &Value) -> (Problems, u64, u64) {
             }
             Parked::Timeout => {
                 p.0.push(("hang", sig("role-never-arrives", json!({"role": if role == 0 { "closer" } else { "holder" }, "expected": site})),
-                    format!("step {i}: role {r} did not reach {site} within {WATCHDOG:?}"), i));
+                    format!("step {i}: role {r} did not reach {site} within {CTL_WAIT:?}"), i));
                 diverged = Some("timeout".into());
                 break;
             }
@@ -525,7 +532,7 @@ fn run_schedule(case: &Value) -> (Problems, u64, u64) {
         // the atomic operation has happened when the role shows up at its next hook or has ended
         match wait_parked(role) {
             Parked::Timeout => {
-                p.0.push(("hang", sig("step-never-ends", json!({"site": site})), format!("step {i}: role {r} did not get past {site} within {WATCHDOG:?}"), i));
+                p.0.push(("hang", sig("step-never-ends", json!({"site": site})), format!("step {i}: role {r} did not get past {site} within {CTL_WAIT:?}"), i));
                 diverged = Some("timeout".into());
                 break;
             }
@@ -679,6 +686,9 @@ fn run_stress(iter: u64, rng: &mut StdRng) -> (Problems, Value) {
                 "free-running threads: every holder thread has ended, the closer is pending and was never woken".into(),
                 0,
             ));
+        }
+        Some(CloserEnd::TimedOut) => {
+            p.0.push(("hang", sig("holders-never-finish", json!({"mode": "stress"})), "the holder threads did not end".into(), 0));
         }
         None => {}
     }
